@@ -413,7 +413,9 @@ def rules(ctx: Ctx) -> None:
             ctx.ob("R17.2", f"guard:before-dispatch:{'+'.join(keys)}", dominates, where, "the guard is evaluated on every path to the dispatch")
             # unconditional apart from key presence and request routing
             facts = dcfg.facts_at(c.id)
-            foreign = [t for t, p in facts if not _routing_or_presence_fact(t, payload_name)]
+            routing_names = {nm for nm in {x.id for x in ast.walk(disp.node) if isinstance(x, ast.Name)}
+                             if any(kind == "assign" and isinstance(node.value, ast.Subscript) and u(node.value.value) == environ for kind, node in prog.local_defs(disp, nm))}
+            foreign = [t for t, p in facts if not _routing_or_presence_fact(t, payload_name, routing_names)]
             ctx.ob("R17.2", f"guard:unconditional:{'+'.join(keys)}", not foreign, where,
                    "the guard is evaluated for every present key" + (f" (skipped depending on `{foreign[0]}`)" if foreign else ""))
             if refuses and dominates and not foreign:
@@ -472,13 +474,13 @@ def _loop_dominates(cfg, guard: int, H: int) -> bool:
     return False
 
 
-def _routing_or_presence_fact(txt: str, payload_name: Optional[str]) -> bool:
+def _routing_or_presence_fact(txt: str, payload_name: Optional[str], routing_names: set = frozenset()) -> bool:
     try:
         e = ast.parse(txt, mode="eval").body
     except SyntaxError:
         return False
     names = {n.id for n in ast.walk(e) if isinstance(n, ast.Name)}
-    if names <= {"request_method", "path_info", "self"}:
+    if names <= (set(routing_names) | {"self"}):
         return True
     if isinstance(e, ast.Compare) and len(e.ops) == 1 and isinstance(e.ops[0], (ast.In, ast.NotIn)) and payload_name and u(e.comparators[0]) == payload_name:
         return True
